@@ -145,7 +145,7 @@ def normalised_dump(tree_or_text) -> str:
 
 def textual_instantiation(repl: str, env: dict) -> str:
     """What plain text substitution of the printed bindings gives (the implementation's documented mechanism)."""
-    out = repl
-    for name, (key, node) in env.items():
-        out = out.replace("{{" + name + "}}", key)
-    return out
+    import re
+
+    # every wildcard of the template in one pass: text that was filled in is not looked at again (a binding may spell `{{y}}` inside a string)
+    return re.sub(r"\{\{(\w+)\}\}", lambda m: env[m.group(1)][0] if m.group(1) in env else m.group(), repl)
